@@ -30,7 +30,7 @@ RULE = ("Repositories of 1-4 files (7 hosts) whose uniquely named blocks carry r
         "in an unselected block; distinct = hash of (diff, argv).")
 ASSUMPTIONS = [
     "edit classes are assigned by construction and cross-checked with bwverif.udiff; cases where git's alignment disagrees are scored don't-care",
-    "TAG-ONLY edits replace one digit strictly inside `<block ...>`; edits abutting a delimiter are not generated (the statement does not define them)",
+    "TAG-ONLY edits replace one digit strictly inside `<block ...>` or delete the tag's last attribute (text directly in front of `>`); edits abutting the `<` are not generated",
     "the C01 known finding (pure deletions located at old-file line numbers) is labelled through the same defect model",
 ]
 
@@ -66,6 +66,8 @@ def gen_file(r, fi, nblocks, scripts, counter):
         attrs.insert(1, ("data-rev", str(r.randint(1, 8))))
         if r.random() < 0.08:
             attrs.append(("data-pad", "p" * r.choice([900, 1100, 2500])))      # tag lines longer than 1 KiB
+        if r.random() < 0.3:
+            attrs.append(("data-tail", r.choice([None, "t%d" % counter[0]])))   # last attribute: a TAG-ONLY edit may delete it (text right in front of `>`)
         layout = "line"
         if ext in ("rs", "go", "js") and r.random() < 0.25:
             layout = r.choice(["shared", "shared-mb", "mltag", "mltag-late", "mlcomment", "mlcomment"])
@@ -207,7 +209,10 @@ def one_case(ctx, r, desc):
                             # the same change also rewords the end-tag line (words after the tag, inside its comment): still a content change
                             b.end_suffix = " v%d" % r.randint(2, 9)
                 elif b.cls == TAGONLY:
-                    bump_rev(b)
+                    if b.attrs and b.attrs[-1][0] == "data-tail" and b.layout == "line" and r.random() < 0.6:
+                        b.attrs.pop()         # the last attribute is deleted: the only change inside the tag sits right in front of its `>`
+                    else:
+                        bump_rev(b)
                 elif b.cls == ENDONLY:
                     b.end_suffix = " v%d" % r.randint(2, 9)
                 classes[(path, b.name)] = b.cls
